@@ -46,7 +46,7 @@ pub struct RecordTypeSet { pub types: VpTypeSet, pub original_encoding: Option<V
     // C01: every byte string given as a type bitmap decodes to a value or an error: no panic
     // (the `len - left`, `* 8`, `+ i` arithmetic must stay checked), and the loops are bounded by the input
     requires old(decoder).wf()
-    ensures final(decoder).wf(), final(decoder).buf() == old(decoder).buf()
+    ensures final(decoder).wf(), final(decoder).buf() == old(decoder).buf(), final(decoder).idx() >= old(decoder).idx()
 //%mutant unchecked_block_arith ".checked_mul(8) .checked_add(i)" => ".map(|r: Restrict<u8>| -> (o: Restrict<u8>) { Restrict::new(r.unverified() * 8 + i) })"
 //%end
 } // verus!
